@@ -14,7 +14,7 @@ pub struct CheckDef {
     pub rule: &'static str,
 }
 
-pub const PROPS: &[&str] = &["C01", "C02", "C04", "C05", "C06", "C07", "C08", "C09"];
+pub const PROPS: &[&str] = &["C01", "C02", "C04", "C05", "C06", "C07", "C08", "C09", "C18"];
 
 pub fn def(prop: &str) -> Option<CheckDef> {
     let rule_mpmc = "cases drawn from the run seed by the role-separated mpmc generator (tasks x ops x capacity x payload class x handle flavours x poll plans x fault knobs); a case is non-trivial when operations of at least two tasks overlapped in simulated real time; distinct = distinct (case hash, op-level history hash) pairs";
@@ -27,17 +27,41 @@ pub fn def(prop: &str) -> Option<CheckDef> {
         "C07" => CheckDef { prop: "C07", quick_runs: 120_000, thorough_runs: 6_000_000, level: "exploration", rule: rule_mpmc },
         "C08" => CheckDef { prop: "C08", quick_runs: 120_000, thorough_runs: 6_000_000, level: "exploration", rule: rule_mpmc },
         "C09" => CheckDef { prop: "C09", quick_runs: 120_000, thorough_runs: 6_000_000, level: "exploration", rule: rule_mpmc },
+        "C18" => CheckDef {
+            prop: "C18",
+            quick_runs: 400_000,
+            thorough_runs: 6_000_000,
+            level: "exploration",
+            rule: "single-task call sequences compared call by call with the reference model: first the systematic sweep of ALL sequences of length <= 3 (quick) / <= 4 (thorough) over a 26-call core alphabet x capacities {0,1,2,unbounded}, then seeded random sequences of length <= 40 over the full API alphabet with per-run alphabet subsets; non-trivial = at least 2 calls; distinct = distinct (case hash, history hash)",
+        },
         _ => return None,
     };
     Some(d)
 }
 
-pub fn make_case(prop: &str, run_seed: u64, _index: u64) -> Case {
+pub fn make_case(prop: &str, run_seed: u64, index: u64, tier: &str) -> Case {
     let mut rng = Rng::new(run_seed);
+    if prop == "C18" {
+        let max_len = if tier == "thorough" { 4 } else { 3 };
+        let n = crate::seq::enum_count(max_len);
+        if index < n {
+            return crate::seq::enum_seq(index, max_len);
+        }
+        return crate::seq::gen_seq(&mut rng, 40);
+    }
     let p = gen::profile_for(prop);
     gen::gen_case(&mut rng, &p)
 }
 
 pub fn evaluate(prop: &str, d: &RunData) -> (Vec<Violation>, Vec<Violation>) {
+    if prop == "C18" {
+        let a = oracle::Analysis::new(d);
+        let mut all = oracle::o_abort(&a);
+        all.extend(crate::seq::o_seq(d));
+        all.extend(oracle::o_drops(&a));
+        all.extend(oracle::o_delivery(&a));
+        let owned = ["model/diff", "panic/undocumented", "ledger/", "hang/"];
+        return all.into_iter().partition(|x| owned.iter().any(|p| x.sig.starts_with(p)));
+    }
     oracle::evaluate(prop, d)
 }
